@@ -2,12 +2,19 @@
 (* The externally visible effect sequence of write() as a function of the scenario; shared by Writer (where TLC *)
 (* checks that the state machine produces exactly this) and WriterTrace (where recorded effects are compared). *)
 \* the effect sequence a recorder sees, as a function of the scenario (used by WriterTrace; TLC checks it agrees)
-EffectsOf(design, fails, openfails) ==
+EffectsOf(design, fails, serfails, openfails) ==
   IF design = "validate-first"
   THEN IF fails THEN <<"validate-raise">>
-       ELSE IF openfails THEN <<"validate", "open-raise">>
-       ELSE <<"validate", "open", "decl", "body", "close">>
-  ELSE IF openfails THEN <<"open-raise">>
+       ELSE IF serfails THEN <<"validate", "serialise-raise">>
+       ELSE IF openfails THEN <<"validate", "serialise", "open-raise">>
+       ELSE <<"validate", "serialise", "open", "decl", "body", "close">>
+  ELSE IF design = "open-first"
+  THEN IF openfails THEN <<"open-raise">>
        ELSE IF fails THEN <<"open", "decl", "validate-raise">>
-       ELSE <<"open", "decl", "validate", "body", "close">>
+       ELSE IF serfails THEN <<"open", "decl", "validate", "serialise-raise">>
+       ELSE <<"open", "decl", "validate", "serialise", "body", "close">>
+  ELSE IF fails THEN <<"validate-raise">>
+       ELSE IF openfails THEN <<"validate", "open-raise">>
+       ELSE IF serfails THEN <<"validate", "open", "decl", "serialise-raise">>
+       ELSE <<"validate", "open", "decl", "serialise", "body", "close">>
 ====
